@@ -369,7 +369,9 @@ def irange(e, B, tyof, env=None, depth=0):
         a = irange(e[2], B, tyof, env, depth + 1)
         b = irange(e[3], B, tyof, env, depth + 1)
         op = e[1]
-        if op == "BitAnd":
+        if op in ("Eq", "Ne", "Lt", "Le", "Gt", "Ge"):
+            r2 = (0, 1)  # a comparison is 0 or 1 (e.g. `(a != b) as u32`)
+        elif op == "BitAnd":
             cands = [x[1] for x in (a, b) if x is not None]
             r2 = (0, min(cands)) if cands else None
         elif a is None or b is None:
